@@ -70,6 +70,18 @@ class C13Episode(Episode):
             return
         p.wid = wid
         self.probes['spawns_checked'] += 1
+        # unique among the workers of the watcher that are alive right now
+        # (a worker in its grace period is still alive)
+        doomed = set(e['pid'] for e in self.world.kernel.signals
+                     if e['sig'] == 9 and e['effect'] in ('will-die', 'died'))
+        others = [q for q in self.world.kernel.live_by_marker(p.marker)
+                  if q.pid != p.pid and q.wid == wid and
+                  q.pid not in doomed]      # SIGKILLed: only the simulated
+        #                                     death latency keeps it listed
+        if others:
+            self.viol('duplicate_wid', 'worker %d of %s gets id %d while '
+                      'worker %d with the same id is still alive' %
+                      (p.pid, wc['name'], wid, others[0].pid), once=p.marker)
         if wid < 1:
             self.viol('wid_not_positive', 'worker %d got id %d' %
                       (p.pid, wid), once=p.pid)
